@@ -48,9 +48,9 @@ PROFILES = {
             (['m04', 'm08', 'm10'], FAIL, 60, 600, None),
             # 'the active state afterwards is the one the policy prescribes for the phase of the throw': the three
             # non-default active-state-switch policies (builds shared with C19)
-            (['m01', 'm03', 'm10'], FAIL, 40, 400, ['b', 'b11', 'mf'], 1),
-            (['m01', 'm03', 'm10'], FAIL, 40, 400, ['b', 'b11', 'mf'], 2),
-            (['m01', 'm03', 'm10'], FAIL, 40, 400, ['b', 'b11', 'mf'], 3)],
+            (['m01', 'm03', 'm10'], dict(effects=0.1, enqueue=0.05, fail=0.6), 100, 600, ['b', 'b11', 'mf'], 1),
+            (['m01', 'm03', 'm10'], dict(effects=0.1, enqueue=0.05, fail=0.6), 100, 600, ['b', 'b11', 'mf'], 2),
+            (['m01', 'm03', 'm10'], dict(effects=0.1, enqueue=0.05, fail=0.6), 100, 600, ['b', 'b11', 'mf'], 3)],
     'C18': [(['m09'], PLAIN, 400, 4000, None),
             (['m09'], FXL, 150, 1500, None)],
 }
